@@ -242,6 +242,85 @@ def auto_discharge(world, fn, s, const_only_fns):
     return None
 
 
+def _len_of(e):
+    """The slice/str whose length `e` denotes, or None."""
+    if e[0] == "un" and e[1] == "PtrMetadata":
+        return e[2]
+    if e[0] == "call" and e[1].rsplit("::", 1)[-1] == "len" and len(e[2]) == 1:
+        return e[2][0]
+    return None
+
+
+def _strip(e):
+    # as_bytes / deref views of the same buffer have the same length
+    while e[0] == "call" and e[1].rsplit("::", 1)[-1] in ("as_bytes", "as_str", "deref", "as_ref", "borrow") and len(e[2]) == 1:
+        e = e[2][0]
+    return e
+
+
+def ne_len_guard(body, s):
+    """True if the bounds assertion Lt(idx, len(X)) at site `s` is dominated by a test excluding idx == len(X) (Eq false, Ne true, Lt true,
+    Ge false with the same idx expression and the same X) and no block between that test and the site writes through the index's root or
+    passes it to a call. Otherwise a short explanation string."""
+    cfg = M.Cfg(body)
+    defs = roots(body)
+    cond = expr(body, defs, s["cond"])
+    if not (cond[0] == "bin" and cond[1] == "Lt"):
+        return "the assertion is not index < len"
+    idx, ln = cond[2], cond[3]
+    X = _len_of(ln)
+    if X is None:
+        return "the asserted length is not the length of a slice"
+    X = _strip(X)
+    dom = cfg.dominators()
+    found = None
+    for d in dom.get(s["block"], []):
+        if d == s["block"]:
+            continue
+        t = body["blocks"][d]["t"]
+        if t[0] != "switch" or t[4] != "bool":
+            continue
+        g = expr(body, defs, t[1])
+        if g[0] != "bin" or g[1] not in ("Eq", "Ne", "Lt", "Ge", "Gt", "Le"):
+            continue
+        a, b, op = g[2], g[3], g[1]
+        if b == idx and _len_of(a) is not None:     # len OP idx  ->  idx OP' len
+            a, b, op = b, a, {"Eq": "Eq", "Ne": "Ne", "Lt": "Gt", "Gt": "Lt", "Le": "Ge", "Ge": "Le"}[op]
+        Y = _len_of(b)
+        if a != idx or Y is None or _strip(Y) != X:
+            continue
+        false_t = [tb for v, tb in t[2] if v == 0]
+        true_t = t[3] if false_t else None
+        # which edge excludes idx == len ?  Eq:false, Ne:true, Lt:true, Ge:false (Gt/Le say nothing useful)
+        edge = {"Eq": false_t[0] if false_t else None, "Ne": true_t, "Lt": true_t, "Ge": false_t[0] if false_t else None}.get(op)
+        if edge is None:
+            continue
+        if edge == s["block"] or cfg.dominates(edge, s["block"]):
+            found = (d, edge)
+    if found is None:
+        return "no such test dominates the site"
+    d, edge = found
+    root = idx
+    while root[0] in ("field", "proj", "variant"):
+        root = root[1]
+    if root[0] != "arg" and root[0] != "local":
+        return True
+    rl = root[1]
+    # blocks between the guard edge and the site
+    between = [b for b in range(len(body["blocks"])) if (b == edge or cfg.dominates(edge, b)) and cfg.reaches(b, [s["block"]])]
+    for b in between:
+        blk = body["blocks"][b]
+        for st in blk["s"]:
+            if st[0] == "=" and M.pl_local(st[1]) == rl and (not isinstance(st[1], int)):
+                return "the index is written between the test and the site"
+        t = blk["t"]
+        if t[0] == "call" and b != s["block"]:
+            for o in t[1]["args"]:
+                if o.get("k") in ("copy", "move") and M.pl_local(o["pl"]) == rl:
+                    return "the index reference is passed to a call between the test and the site"
+    return True
+
+
 def const_only_functions(world):
     """const fns all of whose callers (over the loaded crates) are const items or other such const fns."""
     callers = {}
@@ -419,7 +498,17 @@ def site_rule(ctx, world, crate_names, rule, fn_filter=None, floor=None, report_
             n_table += 1
             e = table[key]
             by_cat[e["cat"]] = by_cat.get(e["cat"], 0) + 1
-            ctx.ok(rule, f"{rule}:{key}", where, f"{e['cat']}: {e['reason']}")
+            # a reviewed reason that names a dominating `index != len` test is re-verified on every run
+            if e.get("requires") == "ne-len-guard":
+                body = list(M.all_bodies(fn))[s["body"]]
+                g = ne_len_guard(body, s)
+                if g is not True:
+                    ctx.violation(rule, f"{rule}:{key}:guard-lost", where,
+                                  f"the reviewed reason for this {s['kind']} site ({e['reason'][:90]}...) requires a dominating `index != len` / "
+                                  f"`index < len` test of the same index and slice with no write to the index in between; {g}: the index can equal the "
+                                  f"length here (out-of-bounds panic on input that ends at this point)")
+                    continue
+            ctx.ok(rule, f"{rule}:{key}", where, f"{e['cat']}: {e['reason']}" + (" [guard re-verified]" if e.get("requires") else ""))
         else:
             ctx.violation(rule, f"{rule}:{key}", where,
                           f"unreviewed {s['kind']} site ({s['detail']}) `{source_line(world.facts and __import__('rsa.facts', fromlist=['REPO']).REPO, fn, s['line'])[:110]}`: "
